@@ -214,6 +214,8 @@ impl BreakerBase {
     }
 
     pub fn current_state(&self) -> State {
+        #[cfg(flea1lt_sentinel_rust_verif)]
+        crate::verif::sched::point("cb:read");
         *self.state.lock().unwrap()
     }
 
@@ -231,6 +233,8 @@ impl BreakerBase {
     /// from_closed_to_open updates circuit breaker state machine from closed to open.
     /// Return true only if current goroutine successfully accomplished the transformation.
     pub fn from_closed_to_open(&self, snapshot: Arc<Snapshot>) -> bool {
+        #[cfg(flea1lt_sentinel_rust_verif)]
+        crate::verif::sched::point("cb:c2o");
         let mut state = self.state.lock().unwrap();
         if *state == State::Closed {
             *state = State::Open;
@@ -255,6 +259,8 @@ impl BreakerBase {
     /// from_open_to_half_open updates circuit breaker state machine from open to half-open.
     /// Return true only if current goroutine successfully accomplished the transformation.
     pub fn from_open_to_half_open(&self, ctx: &EntryContext) -> bool {
+        #[cfg(flea1lt_sentinel_rust_verif)]
+        crate::verif::sched::point("cb:o2h");
         let mut state = self.state.lock().unwrap();
         if *state == State::Open {
             *state = State::HalfOpen;
@@ -307,6 +313,8 @@ impl BreakerBase {
     /// from_half_open_to_open updates circuit breaker state machine from half-open to open.
     /// Return true only if current goroutine successfully accomplished the transformation.
     pub fn from_half_open_to_open(&self, snapshot: Arc<Snapshot>) -> bool {
+        #[cfg(flea1lt_sentinel_rust_verif)]
+        crate::verif::sched::point("cb:h2o");
         let mut state = self.state.lock().unwrap();
         if *state == State::HalfOpen {
             *state = State::Open;
@@ -331,6 +339,8 @@ impl BreakerBase {
     /// from_half_open_to_closed updates circuit breaker state machine from half-open to closed
     /// Return true only if current goroutine successfully accomplished the transformation.
     pub fn from_half_open_to_closed(&self) -> bool {
+        #[cfg(flea1lt_sentinel_rust_verif)]
+        crate::verif::sched::point("cb:h2c");
         let mut state = self.state.lock().unwrap();
         if *state == State::HalfOpen {
             *state = State::Closed;
